@@ -54,7 +54,7 @@ CHECKS.update({
 
 CHECKS.update({
  "C15": dict(level="proof",
-   text="The plumbing of every entry point is under contract: Parse/ParseString/ParseBytes hand the caller's filename and text to the definition's Lex/LexString/LexBytes and the resulting lexer plus the caller's options to parse; parse upgrades exactly that lexer and forwards the options to ParseFromLexer; ParseFromLexer builds the context from the parser's lookahead and case-insensitive table, and on every return path (including a Parseable root) leaves the caller's lexer at the position the parse reached; Parser.Lex consumes the lexer of the same definition; the mapping definition wraps the inner lexer with the same mapper; printTrace writes nothing but ctx.depth (so tracing cannot change results). StatefulDefinition.Lex is proved to hand LexString exactly the text it read under the caller's filename.",
+   text="The plumbing of every entry point is under contract: Parse/ParseString/ParseBytes hand the caller's filename and text to the definition's Lex/LexString/LexBytes and the resulting lexer plus the caller's options to parse; parse upgrades exactly that lexer and forwards the options to ParseFromLexer; ParseFromLexer builds the context from the parser's lookahead and case-insensitive table, and on every return path (including a Parseable root) leaves the caller's lexer at the position the parse reached; Parser.Lex consumes the lexer of the same definition; the mapping definition wraps the inner lexer with the same mapper; printTrace writes nothing but ctx.depth (so tracing cannot change results). StatefulDefinition.Lex is proved to hand LexString exactly the text it read under the caller's filename. The whole-run statement is additionally explored by the bounded entry-points stand-in (3 definitions x mapped / unmapped x 9 inputs x 8 entry points incl. readers that return data together with EOF).",
    note=TRUST + "User-supplied Definitions are assumed to make Lex/LexString/LexBytes agree (StatefulDefinition.Lex == LexString of the reader's content is by inspection); the elision list passed to Upgrade is the result of getElidedTypes (structural). Equality of ASTs across entry points follows because each reduces to the same ParseFromLexer call (paper lemma).",
    ref="DESIGN.md section 4, C15"),
  "C17": dict(level="proof",
@@ -62,7 +62,7 @@ CHECKS.update({
    note=TRUST + "reflect and strconv are opaque stubs (function symbols); type assertions on reflection values in setField are assumed. The position of a conversion error is that of the first captured token (F6 repaired; bounded check 'capture token run').",
    ref="DESIGN.md section 4, C17"),
  "C18": dict(level="proof",
-   text="unquote is proved, by a loop invariant over a recursive spec function transcribed from strconv.Unquote, to return the raw body for back-quoted text and otherwise the concatenation of the characters strconv.UnquoteChar decodes (single bytes stay single bytes), to fail exactly when UnquoteChar fails or the text is shorter than two bytes, and to terminate; Unquote's and Upper's mappers change only Value (type and position untouched) and report errors located at the token; the mapping lexer calls the mapper exactly once per inner token in order; Build's combined mapper applies the all-token mappers then the token type's mappers, each once, on every token. A change that makes the contracts unbindable is still caught with a concrete input by the mapper-order probe (untyped mappers first, then the token type's own, in registration order, 0-5 untyped mappers).",
+   text="unquote is proved, by a loop invariant over a recursive spec function transcribed from strconv.Unquote, to return the raw body for back-quoted text and otherwise the concatenation of the characters strconv.UnquoteChar decodes (single bytes stay single bytes), to fail exactly when UnquoteChar fails or the text is shorter than two bytes, and to terminate; Unquote's and Upper's mappers change only Value (type and position untouched) and report errors located at the token; the mapping lexer calls the mapper exactly once per inner token in order; Build's combined mapper applies the all-token mappers then the token type's mappers, each once, on every token. Unquote and Upper are additionally explored by a bounded stand-in (every ordered pair of 29 literals on one parser against strconv.Unquote; non-ASCII identifiers against strings.ToUpper). A change that makes the contracts unbindable is still caught with a concrete input by the mapper-order probe (untyped mappers first, then the token type's own, in registration order, 0-5 untyped mappers).",
    note=TRUST + "strconv.UnquoteChar and strings.ToUpper are function stubs; that strconv.Quote output is accepted by this decoding is strconv's own inverse property (assumed). User mappers are assumed to be functions of their token.",
    ref="DESIGN.md section 4, C18"),
  "C19": dict(level="proof",
@@ -87,7 +87,7 @@ CHECKS.update({
    ref="DESIGN.md section 4, C16"),
  "C09": dict(level="other", technique="frame obligations of the contract framework (deductive, for the 54 runtime functions under contract) + a static provenance scan of every write site reachable at run time + bounded coherence check of the one shared cache; no schedule is explored",
    text="This family has no notion of interleaving; the schedule quantifier is not decided. What is decided is the sufficient condition the promise rests on: in every function reachable from Parse*, Lex*, String, ebnf.Parse*, the lexers' Next and the actions, each store / map update / append / copy / delete has the obligation 'the target is allocated in this function or is per-call state, not (reachable from) a shared Parser, Definition, grammar node or package-level value'. The one shared written structure, the back-reference cache (a sync.Map), is checked by a bounded stand-in for coherence: what it returns is independent of what was asked before. For the 54 runtime functions under contract the same statement is discharged deductively: their 384 frame obligations (every store, map update, copy and callee effect lies inside the function's modifies clause or in memory allocated by the call) are tagged for this property, the modifies clauses are checked to name only per-call memory (parse context, peeking lexer, stateful lexer, position; never a Parser, grammar node or lexer definition), and LexString is proved to give every lexer a freshly allocated state stack.",
-   note="Assumed: sync.Map, regexp.Regexp, reflect and text/scanner instances are safe as documented; the provenance classification is intra-procedural and type-based (a write through an interface or into a value handed out by user code is not seen). No data-race detection, no interleavings.",
+   note="Assumed: sync.Map, regexp.Regexp, reflect and text/scanner instances are safe as documented; any use of package-level mutable state (sync.Pool, sync.Map, a map variable) in a function reachable at run time is flagged; the provenance classification is intra-procedural and type-based (a write through an interface or into a value handed out by user code is not seen). No data-race detection, no interleavings.",
    ref="DESIGN.md section 4, C09"),
 })
 
